@@ -227,7 +227,7 @@ def _dfs_recur(
                 if w[attrib] == val:
                     return w
             ret = _dfs_recur(uni, w, visited, attrib, val)
-            if ret:
+            if ret is not None:
                 return ret
     return None
 
